@@ -15,6 +15,8 @@ def smiles_to_bond(bond_char: 'str|None'):
     ensures(result[0] == (2 if bond_char == "=" else 3 if bond_char == "#" else 1.5 if bond_char == ":" else 1),
             tag="C03:bond-order-of-symbol")
     ensures(result[1] == (bond_char if (bond_char == "/" or bond_char == "\\") else None), tag="C04:stereo-of-symbol")
+    ensures(typed(result, 'tuple[num,str|None]') and implies(bond_char != ":", typed(result[0], 'int')),
+            tag="C03:bond-order-type")
 
 
 @contract("selfies/utils/smiles_utils.py::bond_to_smiles", props=["C01", "C03", "C04", "C08", "C09"])
